@@ -58,6 +58,21 @@ def main():
                                                     'stage': name},
                                             'ev': ev}, separators=(',', ':')) + '\n')
                         n += 1
+    # the downstream goes silent after AUTH / STARTTLS
+    for lmtp in (False, True):
+        for pipe in (False, True):
+            for opts, stage in ((dict(auth=True), 'auth'), (dict(starttls='required'), 'starttls'), (dict(starttls='optional'), 'starttls_opt')):
+                idx += 1
+                if idx % nshards != shard:
+                    continue
+                r = rdrv.RelayRun(lmtp, pipe, [{stage: 'stall'}], **opts)
+                r.attempt(1, 1)
+                ev = r.run_to_end()
+                stats['executions'] += 1
+                f.write(json.dumps({'id': shard + n * nshards, 'cls': 'relaystall-' + stage + ('-pipelining' if pipe else ''),
+                                    'cfg': {'lmtp': lmtp, 'pipelining': pipe, 'kind': 'smtp', 'deadline': 1000 + rdrv.CMD_T, 'stage': stage},
+                                    'ev': ev}, separators=(',', ':')) + '\n')
+                n += 1
     # pipe relay: a child that outlives the configured timeout
     if shard == 0:
         from slimta.envelope import Envelope
